@@ -398,6 +398,104 @@ def parser_data(kb):
     return out.decode()
 
 
+
+def build_probe(kb):
+    """native probe: real functions from /repo/include + the generated C twin, ASan."""
+    import hashlib
+    import subprocess
+    import native
+    os.makedirs(native.CACHE, exist_ok=True)
+    text = kb.text()
+    key = hashlib.sha256(text.encode()).hexdigest()[:16]
+    cfile = os.path.join(native.CACHE, "parser_twin-%s.c" % key)
+    ofile = cfile[:-2] + ".o"
+    if not os.path.exists(ofile):
+        for f in os.listdir(native.CACHE):
+            if f.startswith("parser_twin-"):
+                os.remove(os.path.join(native.CACHE, f))
+        with open(cfile, "w") as f:
+            f.write(text)
+        r = subprocess.run(["gcc", "-std=gnu11", "-O1", "-g", "-fsanitize=address", "-w", "-I", os.path.join(VERIF, "stubs"),
+                            "-DVERIF_ALLOWED=0", "-c", cfile, "-o", ofile], stderr=subprocess.PIPE)
+        if r.returncode != 0:
+            raise ExtractionBreak("native build of the generated parser C failed: " + r.stderr.decode()[-1500:])
+    return native.build("probe_parser", os.path.join(VERIF, "native", "probe_parser.cpp"),
+                        flags=["-fno-access-control", "-fsanitize=address", "-O1", "-g", ofile], extra_key=key)
+
+
+def probe_search(kb, fn, maxlen=3, twin=False, limit=3):
+    import subprocess
+    exe = build_probe(kb)
+    env = dict(os.environ, ASAN_OPTIONS="detect_leaks=0:abort_on_error=1")
+    if kb.prop == "C20":
+        env["PROBE_C20"] = "1"
+    if twin:
+        env["PROBE_TWIN"] = "1"
+    r = subprocess.run([exe, fn, "search", str(maxlen), str(limit)], env=env, stdout=subprocess.PIPE, stderr=subprocess.PIPE,
+                       timeout=900)
+    import json
+    cases = []
+    for line in r.stdout.decode("utf-8", "replace").splitlines():
+        try:
+            cases.append(json.loads(line))
+        except ValueError:
+            pass
+    mm = re.search(r"(\d+) cases", r.stderr.decode("utf-8", "replace"))
+    return cases, int(mm.group(1)) if mm else 0
+
+
+def replay_fn(kb, t, pr, vals, order, rec):
+    """Find a failing input for the enforced function on the REAL code: the native probe
+    evaluates the same postconditions (and memory safety under ASan) on all buffers of
+    length <= 3 over a 29-byte alphabet, every cursor offset, every argument choice."""
+    fn = t.fn
+    known = {f[0] for f in POSITION_FUNCS} | {f[0] for f in LEXER_FUNCS}
+    if fn not in known or fn == "Parser_char_in_alphabet":
+        return {"reproduced": False, "note": "no native probe for " + fn}
+    cases, n = probe_search(kb, fn, 3)
+    cases = [c for c in cases if not c.get("violated", "").startswith("TWIN")]
+    return {"reproduced": bool(cases), "probe": "native/probe_parser.cpp (real headers, ASan)", "cases_tried": n,
+            "failing_cases": cases[:3],
+            "how_to_rerun": "bin/check %s --replay <this file>" % kb.prop}
+
+
+def replay_file(rec):
+    import subprocess
+    nr = rec.get("native_replay") or {}
+    cases = nr.get("failing_cases") or []
+    if not cases:
+        print("replay: no failing input recorded for obligation %s (%s)" % (rec.get("obligation"), rec.get("description")))
+        return 2
+    kb = build(rec["property"], "quick")
+    exe = build_probe(kb)
+    env = dict(os.environ, ASAN_OPTIONS="detect_leaks=0")
+    if rec["property"] == "C20":
+        env["PROBE_C20"] = "1"
+    rc = 0
+    for c in cases:
+        r = subprocess.run([exe, c["fn"], "case", c["buf_hex"] or "", str(c["off"]), str(c["line"]), str(c["col"]), str(c["lastcol"]),
+                            str(c["arg"])], env=env, stdout=subprocess.PIPE, stderr=subprocess.PIPE)
+        out = r.stdout.decode()
+        if r.returncode != 0:
+            rc = 1
+            print("REPRODUCED on real code: %s buf=%s off=%s arg=%s -> %s" % (c["fn"], c["buf_hex"], c["off"], c["arg"],
+                  out.strip() or ("process died: " + " / ".join(l for l in r.stderr.decode().splitlines() if "ERROR" in l or "SUMMARY" in l)[:400])))
+        else:
+            print("not reproduced: %s buf=%s off=%s" % (c["fn"], c["buf_hex"], c["off"]))
+    return rc
+
+
+def twin_check(kb, maxlen=3):
+    """extractor faithfulness (not proof): generated C vs real code on the enumerated corpus."""
+    bad = []
+    total = 0
+    for fn in [f[0] for f in POSITION_FUNCS if f[0] not in ("Position_eq", "Position_ne")] + \
+              [f[0] for f in LEXER_FUNCS if f[0] != "Parser_char_in_alphabet"]:
+        cases, n = probe_search(kb, fn, maxlen, twin=True)
+        total += n
+        bad += [c for c in cases]
+    return bad, total
+
 def build(prop, tier="quick"):
     kb = KernelBuild("parser", prop)
     kb.defines.append("VERIF_ALLOWED=KBIT(K_eval_error)")
